@@ -360,6 +360,12 @@ pub fn analyse(rep: &RunReport) -> Verdict {
             }
             _ => {}
         }
+        // accepted background work whose closure was thrown away without ever being invoked: the operation was lost
+        if r.kind.background() && matches!(r.outcome, CallOutcome::Returned(_)) && r.starts == 0 && r.closure_drops > 0 && !panicked_obj(r.obj) && rep.result.outcome != Outcome::Aborted {
+            let o = r.obj.unwrap_or(0);
+            let gone = world.objs[o].raw_queue_gone();
+            v(&mut out, "C03", "operation_dropped_unrun", &[r.id], r.closure_drop_at.unwrap_or(0), format!("{} {} on object {} was accepted but its closure was destroyed without ever running{}", r.tag, r.id, o, if gone { " (the queue was freed with the operation still on it)" } else { "" }));
+        }
         if r.closure_drops > 1 {
             v(&mut out, "C14", "closure_dropped_twice", &[r.id], r.closure_drop_at.unwrap_or(0), format!("closure of {} {} was dropped {} times", r.tag, r.id, r.closure_drops));
         }
@@ -760,7 +766,7 @@ fn end_state(rep: &RunReport, live: Live, out: &mut Vec<Violation>) {
                 }
                 None => {}
             }
-            if slot.value_drops == 0 && full {
+            if slot.value_drops == 0 && full && !slot.is_raw {
                 v(out, "C05", "value_never_destroyed", &[], 0, format!("value of object {} was never destroyed although every owner was released", o));
             }
         }
